@@ -245,3 +245,83 @@ pub fn c17(out: &mut dyn Write, tier: &str, rng: &mut Rng, st: &mut Stats) {
         }
     }
 }
+
+/// edges of the tool's output: csv lines `a,b`, or dot lines `    a -> b` / `    a -- b`
+fn read_edges(out: &[u8], dot: bool) -> Option<Vec<(String, String)>> {
+    let text = String::from_utf8_lossy(out);
+    let mut es = Vec::new();
+    for line in text.lines() {
+        let l = line.trim();
+        if l.is_empty() { continue; }
+        if dot {
+            if l.starts_with("digraph") || l.starts_with("graph") || l == "}" { continue; }
+            let (a, b) = l.split_once(" -> ").or_else(|| l.split_once(" -- "))?;
+            es.push((a.trim().to_string(), b.trim().to_string()));
+        } else {
+            let (a, b) = l.split_once(',')?;
+            es.push((a.to_string(), b.to_string()));
+        }
+    }
+    Some(es)
+}
+
+fn pairs_field(es: &[(String, String)]) -> String {
+    es.iter().map(|(a, b)| format!("{}>{}", hex(a.as_bytes()), hex(b.as_bytes()))).collect::<Vec<_>>().join(",")
+}
+
+pub fn c18(out: &mut dyn Write, tier: &str, rng: &mut Rng, st: &mut Stats) {
+    let reps = if tier == "thorough" { 20 } else { 2 };
+    // every (V, E, -u, --complete, --dot) request with V <= 6, incl. infeasible ones
+    for v in 0..=6usize {
+        for u in [false, true] {
+            let maxe = if u { v * v.saturating_sub(1) / 2 } else { v * v.saturating_sub(1) };
+            let mut requests: Vec<(Option<usize>, bool)> = (0..=maxe + 2).map(|e| (Some(e), false)).collect();
+            requests.push((None, true));
+            for (e, complete) in requests {
+                for rep in 0..reps {
+                    let dot = rep % 2 == 1;
+                    let mut args: Vec<String> = Vec::new();
+                    if complete { args.push("--complete".into()); args.push(v.to_string()); }
+                    else { args.push(v.to_string()); args.push(e.unwrap().to_string()); }
+                    if u { args.push("-u".into()); }
+                    if dot { args.push("--dot".into()); }
+                    let (class, stdout, _) = run_capture(&bin("random_graph_gen"), &args, &[], 60);
+                    let edges = read_edges(&stdout, dot).map(|es| pairs_field(&es)).unwrap_or_else(|| "UNREADABLE".to_string());
+                    writeln!(out, "C18|gen|{}|{}|{}|{}|{}|{}", v, e.map(|x| x.to_string()).unwrap_or_else(|| "-".into()), u as u8, complete as u8, class, edges).unwrap();
+                    st.hit(&format!("gen.exit.{}", class));
+                }
+            }
+        }
+    }
+    // --convert and --colors on random small edge lists
+    let n = if tier == "thorough" { 3000 } else { 200 };
+    let names = ["a", "b", "c", "d", "e"];
+    let path = format!("{}/c18_edges.csv", scratch());
+    for i in 0..n {
+        let k = 2 + rng.below(3) as usize;
+        let m = rng.below(7) as usize;
+        let edges: Vec<(String, String)> = (0..m).map(|_| (names[rng.below(k as u64) as usize].to_string(), names[rng.below(k as u64) as usize].to_string())).collect();
+        let csv: String = edges.iter().map(|(a, b)| format!("{},{}\n", a, b)).collect();
+        std::fs::write(&path, csv).unwrap();
+        if i % 2 == 0 {
+            let u = rng.chance(1, 2);
+            let mut args = vec!["--convert".to_string(), path.clone()];
+            if u { args.push("-u".into()); }
+            let (class, stdout, _) = run_capture(&bin("random_graph_gen"), &args, &[], 60);
+            let outp = read_edges(&stdout, false).map(|es| pairs_field(&es)).unwrap_or_else(|| "UNREADABLE".to_string());
+            writeln!(out, "C18|convert|{}|{}|{}|{}", u as u8, pairs_field(&edges), class, outp).unwrap();
+            st.hit("convert");
+        } else {
+            // colouring problems are about simple graphs: no self-loops
+            let simple: Vec<(String, String)> = edges.iter().filter(|(a, b)| a != b).cloned().collect();
+            let csv: String = simple.iter().map(|(a, b)| format!("{},{}\n", a, b)).collect();
+            std::fs::write(&path, csv).unwrap();
+            let kcol = rng.below(4) as usize;
+            let args = vec!["--convert".to_string(), path.clone(), "--colors".to_string(), kcol.to_string()];
+            let (class, stdout, _) = run_capture(&bin("random_graph_gen"), &args, &[], 60);
+            let outp = read_edges(&stdout, false).map(|es| pairs_field(&es)).unwrap_or_else(|| "UNREADABLE".to_string());
+            writeln!(out, "C18|colors|{}|{}|{}|{}", kcol, pairs_field(&simple), class, outp).unwrap();
+            st.hit("colors");
+        }
+    }
+}
